@@ -53,6 +53,21 @@ theorem parseRefAbbr_good (cfg : MdCfg) (name : String) (mt : RxMatch) (st : Blo
   exact Good.ok (Post.of_frame ⟨rfl, rfl, rfl⟩ (PosOk.some (by omega)))
 
 
+/-! ### plugins/math.py, plugins/speedup.py (`Mistune.Model.BlockPluginsA`) -/
+
+theorem parseBlockMath_good (cfg : MdCfg) (name : String) (mt : RxMatch) (st : BlockState)
+    (hpre : Pre name mt st) : Good (Post st) (parseBlockMath cfg mt st) := by
+  obtain ⟨_, h2, h3, _, _⟩ := hpre
+  exact Good.ok (Post.of_frame ⟨rfl, rfl, rfl⟩ (PosOk.some (by omega)))
+
+theorem parseParagraph_good (name : String) (mt : RxMatch) (st : BlockState)
+    (hpre : Pre name mt st) : Good (Post st) (parseParagraph mt st) := by
+  obtain ⟨_, h2, h3, _, _⟩ := hpre
+  unfold parseParagraph
+  refine Good.bind (addParagraph_good st _) (fun st' h => ?_)
+  exact Good.pure (Post.of_frame h (PosOk.some (by omega)))
+
+
 /-! ### plugins/def_list.py -/
 
 theorem SameFrame.trans {a b c : BlockState} (h1 : SameFrame a b) (h2 : SameFrame b c) : SameFrame a c :=
